@@ -280,7 +280,7 @@ WindDown == (heap = {}) ~> (watchers = 0)
 \* ------------------------------------------------- refinement: TimerImpl => TimerAbs
 \* stamps are the model clock; Call is instantaneous (tb = ta = now); callbacks are prompt, so the
 \* lateness clause is on, with L = 1 tick.
-AbsCfg == [late |-> TRUE, L |-> 1, Q |-> 2, idle |-> IdleT, slack |-> 3, maxw |-> MaxW]
+AbsCfg == [late |-> TRUE, L |-> 1, Q |-> 2, idle |-> IdleT, slack |-> 3, maxw |-> MaxW, gap |-> 0]
 Abs == INSTANCE TimerAbs WITH
           Ids <- Fut, Stamps <- 0 .. MaxT, DelaySet <- Delays,
           due <- [i \in 1 .. nc |-> fireT[i]], ref <- [i \in 1 .. nc |-> fireT[i]],
